@@ -453,22 +453,31 @@ class access:
         def _get_targets(self, branch: Branch, /):
             if not self._should_apply(branch):
                 return
+            skip = self._last_serial_world(branch)
             for w in self[UnserialWorlds][branch]:
+                if w == skip:
+                    continue
                 yield Target(adds(
                     group(anode(w, branch.new_world())),
                     world=w,
                     branch=branch))
 
-        def _should_apply(self, branch: Branch,/):
+        def _last_serial_world(self, branch: Branch, /):
+            """The world introduced by this rule, if it was the last rule to apply
+            to the branch. Only that world is skipped: this prevents infinite
+            repetition for branches that are otherwise finished, without leaving
+            other worlds without a successor."""
             try:
                 entry = next(reversed(self.tableau.history))
             except StopIteration:
-                pass
-            else:
-                # This tends to stop modal explosion better than the max worlds check,
-                # at least in its current form (all modal operators + worlds + 1).
-                if entry.rule == self and entry.target.branch == branch:
-                    return False
+                return None
+            # This tends to stop modal explosion better than the max worlds check,
+            # at least in its current form (all modal operators + worlds + 1).
+            if entry.rule == self and entry.target.branch == branch:
+                return entry.target['adds'][0][0]['world2']
+            return None
+
+        def _should_apply(self, branch: Branch,/):
             # As above, this is unnecessary
             if self[MaxWorlds].is_exceeded(branch):
                 return False
